@@ -1,4 +1,5 @@
 //! casharn: drives the real cassadilia crate for the TLA+ conformance checks (see /verif/DESIGN.md).
+#![allow(dead_code)]
 #[macro_use]
 mod gamma;
 mod alpha;
